@@ -522,6 +522,27 @@ def register_assembler(R):
         r = v["result"]
         return isinstance(r, Obj) and r.cls is Tree and r.uid not in E.entry_uids
 
+    def coincidence_hint(E, vars):
+        """proof step for the fork variants: a distance of zero between a branch end and a child means equal coordinates
+        (instances of the abstract lemma `sum-of-three-squares-zero`, itself an obligation of the property)"""
+        from pyvc import lemmas
+
+        if single_file(vars) or E.ghost.get("c16-coincidence-hint"):
+            return
+        E.ghost["c16-coincidence-hint"] = True
+        J = vars["x"].fields["ndata"].items
+        for p, lst in _kids(vars).items():
+            if len(lst) < 2:
+                continue
+            for (_, br) in lst:
+                B = br.fields["attach"].fields["ndata"].items
+                q = B["x"].shape[0]
+                for (c, _) in lst:
+                    d = [z3.simplify(val(B[a], q - 1) - val(J[a], c)) for a in "xyz"]
+                    if all(z3.is_rational_value(t) for t in d):
+                        continue
+                    lemmas.use(E, "sum-of-three-squares-zero", *d)
+
     VARIANTS = {}
     for q in (2, 3, 4):
         VARIANTS[f"stem-with-{q}-samples"] = setup([-1, 0], [q])
@@ -541,6 +562,7 @@ def register_assembler(R):
           ensures=[("result-is-a-new-tree", post_is_tree),
                    ("node-count-is-junctions-plus-all-interior-samples", post_count),
                    ("rows-are-interior-samples-then-end-junction-chained-by-pid", post_rows)],
+          options=dict(hints={"post/rows-are-interior-samples-then-end-junction-chained-by-pid": coincidence_hint}),
           notes="fixed shapes per variant: a root with one branch of q in {2,3,4} resampled points, and two branches in sequence "
                 "(junction 0 -> 1 -> 2) of (q1,q2) points; all coordinates, radii and types symbolic; every input object frozen. "
                 "forks of two / three branches under the root and a fork of two below a stem, the branch lists stored in child order or "
@@ -718,6 +740,22 @@ def register_tree_level(R):
         d = to_z3(o["distance"], "real")
         return z3.And(*[branch_geometry(E, oc, b)[2] / z3.RealVal(len(rb) - 1) <= d for b, rb in pairs])
 
+    def rs_step_hint(E, vars):
+        """proof step: L/d <= m and d > 0 give L <= m*d (instances of the abstract lemma `quotient-bound`, an obligation of its own)"""
+        from pyvc import lemmas
+
+        if "quotient-bound" not in lemmas.LEMMAS:
+            lemmas.lemma("quotient-bound", 3)(lambda L, d, m: z3.Implies(z3.And(d > 0, L / d <= m), L <= m * d))
+        x0 = vars.get("x")
+        cols = _tree_cols(x0) if isinstance(x0, Obj) else None
+        if cols is None or _ints(cols.get("pid")) is None or "distance" not in vars:
+            return
+        d = to_z3(vars["distance"], "real")
+        for seq in topo_branches(_ints(cols["pid"]))[1]:
+            L = branch_geometry(E, cols, seq)[2]
+            for m in range(1, MAX_GAPS + 1):
+                lemmas.use(E, "quotient-bound", L, d, z3.RealVal(m))
+
     CHAINS = {"chain-of-2": [-1, 0], "chain-of-3": [-1, 0, 1]}
     R.add(f"{TT}:Resampler.__call__", prop="C16",
           variants={nm: rs_setup(p) for nm, p in CHAINS.items()},
@@ -729,7 +767,7 @@ def register_tree_level(R):
                    ("samples-on-polyline-at-equal-arc-steps/z", rs_samples(2)),
                    ("radius-linear-in-arc-length-between-knots", rs_samples(3)),
                    ("step-not-longer-than-spacing", rs_step)],
-          options=dict(split_small_counts=True, models=_ext8().MODELS, inline_calls=INLINE_TREE),
+          options=dict(split_small_counts=True, models=_ext8().MODELS, inline_calls=INLINE_TREE, hints={"post/step-not-longer-than-spacing": rs_step_hint}),
           notes="FIXED topology and FIXED size: unbranched trees of 2 and 3 nodes (one branch of 2 or 3 knots, every coordinate / radius / "
                 "type symbolic, segments may have length zero), self = IsometricResampler as its real constructor builds it, spacing "
                 "symbolic, branch length in (0, %d spacings] so that the sample count is case-split (2..%d samples); from_tree, the branch "
